@@ -365,20 +365,23 @@ def create_standard_torchscript_polyglot(
         polyglot_file_name = "polyglot.pt"
     shutil.copy(standard_pytorch_file, polyglot_file_name)
 
-    with zipfile.ZipFile(torchscript_file, "r") as zip_b:
-        constants_pkl_path = check_and_find_in_zip(
-            zip_b, "constants.pkl", check_extension=False, return_path=True
-        )
-        version_path = check_and_find_in_zip(zip_b, "version", return_path=True)
-        if constants_pkl_path and version_path:
-            zip_b.extract(constants_pkl_path, "temp")
-            zip_b.extract(version_path, "temp")
+    try:
+        with zipfile.ZipFile(torchscript_file, "r") as zip_b:
+            constants_pkl_path = check_and_find_in_zip(
+                zip_b, "constants.pkl", check_extension=False, return_path=True
+            )
+            version_path = check_and_find_in_zip(zip_b, "version", return_path=True)
+            if constants_pkl_path and version_path:
+                zip_b.extract(constants_pkl_path, "temp")
+                zip_b.extract(version_path, "temp")
 
-    with zipfile.ZipFile(polyglot_file_name, "a") as zip_out:
-        zip_out.write(f"temp/{constants_pkl_path}", "constants.pkl")
-        zip_out.write(f"temp/{version_path}", "version")
-
-    shutil.rmtree("temp")
+        with zipfile.ZipFile(polyglot_file_name, "a") as zip_out:
+            zip_out.write(f"temp/{constants_pkl_path}", "constants.pkl")
+            zip_out.write(f"temp/{version_path}", "version")
+    finally:
+        # do not leave the extraction directory behind when one of the steps above fails
+        if os.path.isdir("temp"):
+            shutil.rmtree("temp")
     polyglot_found = True
     return polyglot_found
 
@@ -400,9 +403,9 @@ def create_polyglot(first_file, second_file, polyglot_file_name=None, print_resu
     polyglot_found = False
     temp_first_file = "temp_" + os.path.basename(first_file)
     temp_second_file = "temp_" + os.path.basename(second_file)
-    shutil.copy(first_file, temp_first_file)
-    shutil.copy(second_file, temp_second_file)
     try:
+        shutil.copy(first_file, temp_first_file)
+        shutil.copy(second_file, temp_second_file)
         files = [
             (temp_first_file, identify_pytorch_file_format(temp_first_file)[0]),
             (temp_second_file, identify_pytorch_file_format(temp_second_file)[0]),
